@@ -37,7 +37,8 @@ UNMET_B = 'module:xv_nx_b_zz'
 DIRS = ['+SKIP', '-SKIP', '+REQUIRES(module:os)', '-REQUIRES(module:os)',
         '+REQUIRES(%s)' % UNMET_A, '-REQUIRES(%s)' % UNMET_A, '+REQUIRES(%s)' % UNMET_B, '-REQUIRES(%s)' % UNMET_B,
         '+IGNORE_WHITESPACE', '-IGNORE_WHITESPACE']
-FORMS = ['one', 'multi', 'multi_first', 'compound', 'compound_last', 'deco', 'want', 'badwant', 'strlit', 'wsprobe']
+FORMS = ['one', 'multi', 'multi_first', 'compound', 'compound_last', 'deco', 'want', 'badwant', 'strlit', 'wsprobe',
+         'decoclass', 'decoclass_last', 'decoasync']
 
 EX_ALPHABET = ([('block', d) for d in DIRS] +
                [('stmt', 'one', None), ('stmt', 'one', '+SKIP'), ('stmt', 'one', '-SKIP'),
@@ -125,6 +126,12 @@ def stmt_lines(i, form, inline):
         return ['>>> for _k in range(1):', '...     quiet(%d)%s' % (i, c)]
     if form == 'deco':
         return ['>>> @deco(%d)%s' % (i, c), '... def g%d(): pass' % i]
+    if form == 'decoclass':
+        return ['>>> @deco(%d)%s' % (i, c), '... class G%d:' % i, '...     pass']
+    if form == 'decoclass_last':
+        return ['>>> @deco(%d)' % i, '>>> class G%d:' % i, '>>>     pass%s' % c]
+    if form == 'decoasync':
+        return ['>>> @deco(%d)%s' % (i, c), '... async def ag%d(): pass' % i]
     if form == 'want':
         return ['>>> quiet(%d) or print("o%d")%s' % (i, i, c), 'o%d' % i]
     if form == 'badwant':
